@@ -268,3 +268,11 @@ package auth
 //@ func (*IAMCache) GetUserAccount
 //@   requires {C17} [well-formed] c.iamcache != nil && c.iamcache.items != nil
 //@   ensures {C17} [miss-caches-the-service-answer] err == nil ==> in(access, c.iamcache.items) && (ret0 == c.iamcache.items[access].value)
+
+// ---- C17: the file-backed account store never writes anything but what it read, unless the update succeeded ----
+// storeIAM writes with os.WriteFile only the bytes it read: the backup before the update (the slice it read) and,
+// when the update or the temporary file fails, the private copy taken before the update (not the slice the update
+// callback was handed and may have changed, nor its result). New content goes through writeTempFile and rename.
+//@ func (*IAMServiceInternal) storeIAM
+//@   at-call os.WriteFile {C17} [only-what-was-read-is-written-in-place] requires called("os.ReadFile") && ((!called("dynamic") && samearray($1, result("os.ReadFile", 0))) || samearray($1, datacopy))
+//@   at-call builtin.copy {C17} [the-copy-is-of-what-was-read] requires samearray($0, datacopy) && samearray($1, result("os.ReadFile", 0)) && len($0) == len($1)
